@@ -246,7 +246,9 @@ void run_C15(Ctx &cx) {
   long long nseq = cx.thorough ? 40000 : 1600;
   std::string dir = cx.args.s("out") + ".files";
   mkdir(dir.c_str(), 0755);
+  int abnormal_seqs = 0;
   for (long long s = 0; s < nseq; s++) {
+    if (abnormal_seqs >= 3) { cx.rep.count("stopped_early_after_3_abnormal_sequences"); break; } // each hang witness costs its wall-clock budget twice
     if (!cx.take()) continue;
     vh::Rng r = cx.case_rng();
     int len = 2 + (int)r.below(r.chance(80) ? 12 : 39);
@@ -291,6 +293,7 @@ void run_C15(Ctx &cx) {
         vh::J j;
         j.num("op_index", (long long)i).str("op", KN[kept[i].kind]).str("prev", i ? KN[kept[i - 1].kind] : "none").str("how", how);
         cx.rep.violation(std::string("C15|abnormal-in-sequence|") + (how == "timeout" ? "hang" : "crash"), "an operation that terminates normally alone did not when run after others in one process", j.done());
+        abnormal_seqs++;
         break;
       }
       const Res &a = got[i], &b = fresh[i];
